@@ -87,4 +87,10 @@ CHECKS.update({
   "text": "a ~150-call probe suite covering every API family is replayed after every step of random context histories (create / preallocated create / clone / preallocated clone / randomize / replace, corrupt or reset the SHA-256 compression function / destroy) and must equal the fresh-context outputs; every probe also runs on secp256k1_context_static (child process) and on a byte copy, judged by the header's own '(not secp256k1_context_static)' markers; the const-context probes run on 2, 4, 8, 16 threads x 4 context preparations x asm/no-asm TSan builds (150k overlapping call pairs observed per quick run); the .so's writable PT_LOAD segment is compared around 11 checkpoints incl. an 8-thread batch, under TSan as well; create/clone <= 1 allocation, preallocated variants 0.",
   "note": "Trusted: TSan, dl_iterate_phdr segment discovery, the probe suite's coverage of API families. Interleavings that did not occur are not covered."},
 })
+CHECKS.update({
+ "C06": {
+  "technique": "runtime monitoring: valgrind memcheck as a taint tracker (secrets marked undefined, error counter sampled around every API call) on 3 (quick) / 7 (thorough) compiled variants of the library, with a liveness canary",
+  "text": "every API the project declares constant-time is executed with its secret arguments undefined (the maintainers' list in src/ctime_tests.c, extended with optional-argument subsets, 1..5 MuSig signers, 0..3 tweaks, adaptor on/off, custom ECDH hash, aux randomness) on fresh, public-seed- and secret-seed-randomised contexts; the library is compiled as its own translation unit with the shipped flags and -DVALGRIND for {native int128 + asm, int64, int128 struct} (quick) plus {-O3, -Os, no asm, clang} (thorough); any memcheck report inside a call is attributed to that call; a canary proves the tracker is live.",
+  "note": "Trusted: memcheck definedness propagation; verdict is per compiled binary. Non-control-flow timing channels are out of reach."},
+})
 NOT_APPLICABLE = {}
